@@ -641,10 +641,9 @@ class WriteFaults(Engine):
                     status = status + ":" + result.get("error", "")[:120]
             after = self._tree(outdir, logfile)
             trace.append([scenario["mode"], level, entries, sorted(ignorable), expect_refusal, status.split(":")[0:2]])
-            refused = "AntismashInputError" in status and ("aborting for safety" in status or "not a directory" in status
-                                                           or level != "function" and expect_refusal)
-            if level == "function":
-                refused = status.startswith("raised:AntismashInputError")
+            # refused = the run did not go ahead: the explicit safety error, or any other failure before writing
+            # (e.g. the log file path being a directory); going ahead = prepare_output_directory returned / exit 0
+            refused = status not in ("returned", "exit:0")
             res.fault("directory_scenario")
             listing = f"directory entries {entries} (ignorable: {sorted(ignorable)}), mode={scenario['mode']}, logfile={scenario['logfile']}"
             if expect_refusal:
